@@ -16,7 +16,7 @@ EVID = os.path.join(ROOT, "evidence")
 TARGET = os.path.join(ROOT, "target")
 HARNESS_DIR = os.path.join(ROOT, "harness")
 HARNESS_BIN = os.path.join(TARGET, "harness", "debug", "rsbdd-conform")
-REPO = "/repo"
+REPO = os.environ.get("VERIF_REPO", "/repo")   # the tree under test (a scratch copy for the seeded-change matrix)
 REPO_BIN_DIR = os.path.join(TARGET, "repo", "debug")
 KNOWN = os.path.join(ROOT, "known_findings.json")
 NCPU = os.cpu_count() or 4
